@@ -4,8 +4,8 @@ import (
 	"encoding/binary"
 	"fmt"
 	"io"
-	"os"
 	iofs "io/fs"
+	"os"
 	"sort"
 	"strings"
 
